@@ -77,8 +77,11 @@ RULE = ("per runnable estimator (forecasters incl. composites, series / panel tr
         "on the original, on equal-parameter twins (n_jobs None/1/2/4, threading backend), on a freshly fitted twin per call, on a pickled copy and on a deep copy, with ANOTHER object of the "
         "class (equal parameters / default-constructed) fitted on other data and used in between; copies: observable state (cutoff, data, stored horizon values and kind) compared at restore time, "
         "predict() without a horizon on every copy, pickled copy run through update + predict against a fresh twin; forecasters: horizon at fit relative or absolute, "
-        "out-of-sample, in-sample and mixed horizons, relative and absolute, on ONE object, with a state digest (cutoff, remembered series, fitted flag, window "
-        "length) before/after every call; every estimator with a random_state: seed forms 0, positive int, np.int64, RandomState instance built equal per copy "
+        "out-of-sample, in-sample and mixed horizons, relative and absolute, on ONE object, with a state digest (cutoff, remembered series, remembered exogenous data, fitted flag, window "
+        "length) before/after every call; EVERY forecaster also with exogenous data (fit(y, X, fh), predict(fh, X) / predict(X=X), update(y, X)): frames holding lagged regressors "
+        "(leading rows missing) with missing readings in the training and in the future rows, complete frames, one float block / single column / mixed dtypes / a pandas view on the caller's wider array, "
+        "all arguments of a call snapshotted (a fit that raises must leave them intact too), plus reduction forecasters (recursive / direct / multioutput, tabular and time-series regressors) over "
+        "tree regressors that accept missing values; series / panel transformers: transform / inverse_transform also with their second data argument (X next to Z, y next to X), thorough: fit(Z, X); every estimator with a random_state: seed forms 0, positive int, np.int64, RandomState instance built equal per copy "
         "(instance form skipped, and counted, where an apply-type method draws from it or the docstring says int only); forecaster histories through the state-machine model with the same horizon kinds; Hampel filter against its Lean model; Parallel under "
         "induced completion orders; one static source walk (global random, random_state truthiness tests, writes to self, unordered collection). distinct by driver "
         "line; non-trivial = at least one apply-type call returned a value")
@@ -791,6 +794,7 @@ FRESH = ("pu",)                  # rebuilt for every call, like every instance w
 def run_seq(c):
     """returns the observation dict (also cached).
     instances: o original | jN j1 j2 j4 equal-parameter twins (that n_jobs) | fr f1 f2 f4 FRESHLY fitted twins |
+      (with c["exog"]: every fit gets (y, X, fh), every predict (fh, X), every update (y, X))
       pk pickle round trip of o | dc copy.deepcopy(o) | pu pickle round trip of o, then update (fresh per call) |
       fu freshly fitted twin, then update | fo / fd ANOTHER object of the class (equal parameters / default-
       constructed) fitted on OTHER data and used, between the calls on the others
